@@ -75,11 +75,11 @@ PROFILES = {
     "fdrop": dict(
         send=[("asend_d", 8), ("send", 2), ("try_send", 2), ("close", 1), ("drop", 1)],
         recv=[("arecv_d", 8), ("stream_d", 3), ("recv", 2), ("try_recv", 2), ("drain_into", 1), ("close", 1), ("drop", 1)],
-        caps=[0, 0, 1, 2], nprocs=[2, 3, 3], nops=[1, 2, 3], payloads=["w1", "b3", "h4", "p5", "z0"], late=0.2),
+        caps=[0, 0, 1, 2], nprocs=[2, 3, 3], nops=[1, 2, 3], payloads=["w1", "b3", "h4", "p5", "z0", "u8", "u16"], late=0.2),
     "poll": dict(
         send=[("asend_p", 8), ("send", 2), ("try_send", 2), ("close", 1), ("drop", 1)],
         recv=[("arecv_p", 8), ("stream_p", 4), ("recv", 2), ("try_recv", 2), ("close", 1), ("drop", 1)],
-        caps=[0, 0, 1, 2], nprocs=[2, 3, 3], nops=[1, 2, 3], payloads=["w1", "b3", "h4"], late=0.2),
+        caps=[0, 0, 1, 2], nprocs=[2, 3, 3], nops=[1, 2, 3], payloads=["w1", "b3", "h4", "u16"], late=0.2),
     "drain": dict(
         send=[("send", 6), ("asend", 4), ("try_send", 2), ("send_timeout", 1), ("close", 1), ("drop", 1)],
         recv=[("drain_into", 8), ("recv", 1), ("try_recv", 1), ("close", 1), ("obs", 1)],
@@ -267,7 +267,7 @@ def gen_chain(rng, payload=None, cap="rand", side=None):
     cancelled from the middle of the waiting list (timed expiry once the clock starts ticking, dropped futures),
     then the other side arrives and serves the rest."""
     capv = rng.choice([0, 0, 1, 1, 2]) if cap == "rand" else cap
-    pl = payload or rng.choice(["w1", "b3", "h4", "p5"])
+    pl = payload or rng.choice(["w1", "b3", "h4", "p5", "u16"])
     k = rng.choice([2, 3, 3, 4])
     side = side or rng.choice(["s", "s", "s", "r"])
     procs = []
@@ -512,7 +512,7 @@ def gen_progress(rng):
         procs.append({"phase": 0, "handles": [oh, oh], "ops": b + [{"op": "drop", "h": 0}, {"op": "len", "h": 1}, {"op": "drop", "h": 1}]})
     st = {"spin_bias": rng.choice([0.9, 0.995, 0.999]), "p_switch": rng.choice([0.02, 0.1, 0.5]),
           "p_spurious": rng.choice([0.0, 0.2, 0.4]), "q_tick": 0.0, "tick_phase": 3}
-    return {"cap": cap, "payload": rng.choice(["w1", "b3", "h4"]), "procs": procs, "strat": st}
+    return {"cap": cap, "payload": rng.choice(["w1", "b3", "h4", "u8", "u16", "p5"]), "procs": procs, "strat": st}
 
 
 def gen_mutex(rng, freeze=False):
